@@ -475,7 +475,8 @@ PROPS["C20"] = {
              "load of 24 concurrent proxy/client/answer triples per round through the real HTTP handlers with metrics readers in parallel, "
              "concurrent log-scrubber writers, redial/queue adapter stress, multi-session carrier churn through the real server (server, "
              "QueuePacketConn, ClientMap, websocketconn), the client's Peers machine and failing rendezvous with real pion, and proxy session "
-             "sequences with real pion. Oracle: the happens-before race detector; a report counts when both conflicting accesses are in "
+             "sequences with real pion; thorough tier: the whole-system unit with the broker and proxy binaries built with -race (their own "
+             "reports are collected) and the client and server libraries race-checked inside the harness process under real proxy churn. Oracle: the happens-before race detector; a report counts when both conflicting accesses are in "
              "non-test code of the repository or its dependencies (harness goroutines are excluded by stack inspection); reports are grouped "
              "by the unordered pair of source locations. Non-trivial = a workload case in which >= 2 goroutines were inside the component "
              "(the non-trivial rules of the source units; for the real-time load: >= 2 requests in flight)."),
@@ -490,6 +491,7 @@ PROPS["C20"] = {
         R("c20_server", "ext", "c05", "^TestVerifC05Sessions$", (12, 150), shards=(3, 6)),
         R("c20_peers", "inpkg", "client/lib", "^TestVerifC15(Peers|Rendezvous)$", (40, 400)),
         R("c20_proxy", "inpkg", "proxy/lib", "^TestVerifC16Sessions$", (15, 150)),
+        R("c20_system", "ext", "sys", "^TestVerifC01System$", (0, 8), shards=(0, 4), timeout=(400, 3400), tiers=["thorough"], env={"VERIF_SYS_RACE": "1"}),
     ],
 }
 META["C20"] = {
